@@ -295,14 +295,14 @@ namespace detail
 	{
 		GLM_STATIC_ASSERT(std::numeric_limits<T>::is_integer, "'bitfieldReverse' only accept integer values");
 
-		vec<L, T, Q> x(v);
-		x = detail::compute_bitfieldReverseStep<L, T, Q, detail::is_aligned<Q>::value, sizeof(T) * 8>=  2>::call(x, static_cast<T>(0x5555555555555555ull), static_cast<T>( 1));
-		x = detail::compute_bitfieldReverseStep<L, T, Q, detail::is_aligned<Q>::value, sizeof(T) * 8>=  4>::call(x, static_cast<T>(0x3333333333333333ull), static_cast<T>( 2));
-		x = detail::compute_bitfieldReverseStep<L, T, Q, detail::is_aligned<Q>::value, sizeof(T) * 8>=  8>::call(x, static_cast<T>(0x0F0F0F0F0F0F0F0Full), static_cast<T>( 4));
-		x = detail::compute_bitfieldReverseStep<L, T, Q, detail::is_aligned<Q>::value, sizeof(T) * 8>= 16>::call(x, static_cast<T>(0x00FF00FF00FF00FFull), static_cast<T>( 8));
-		x = detail::compute_bitfieldReverseStep<L, T, Q, detail::is_aligned<Q>::value, sizeof(T) * 8>= 32>::call(x, static_cast<T>(0x0000FFFF0000FFFFull), static_cast<T>(16));
-		x = detail::compute_bitfieldReverseStep<L, T, Q, detail::is_aligned<Q>::value, sizeof(T) * 8>= 64>::call(x, static_cast<T>(0x00000000FFFFFFFFull), static_cast<T>(32));
-		return x;
+		vec<L, typename detail::make_unsigned<T>::type, Q> x(v);
+		x = detail::compute_bitfieldReverseStep<L, typename detail::make_unsigned<T>::type, Q, detail::is_aligned<Q>::value, sizeof(T) * 8>=  2>::call(x, static_cast<typename detail::make_unsigned<T>::type>(0x5555555555555555ull), static_cast<typename detail::make_unsigned<T>::type>( 1));
+		x = detail::compute_bitfieldReverseStep<L, typename detail::make_unsigned<T>::type, Q, detail::is_aligned<Q>::value, sizeof(T) * 8>=  4>::call(x, static_cast<typename detail::make_unsigned<T>::type>(0x3333333333333333ull), static_cast<typename detail::make_unsigned<T>::type>( 2));
+		x = detail::compute_bitfieldReverseStep<L, typename detail::make_unsigned<T>::type, Q, detail::is_aligned<Q>::value, sizeof(T) * 8>=  8>::call(x, static_cast<typename detail::make_unsigned<T>::type>(0x0F0F0F0F0F0F0F0Full), static_cast<typename detail::make_unsigned<T>::type>( 4));
+		x = detail::compute_bitfieldReverseStep<L, typename detail::make_unsigned<T>::type, Q, detail::is_aligned<Q>::value, sizeof(T) * 8>= 16>::call(x, static_cast<typename detail::make_unsigned<T>::type>(0x00FF00FF00FF00FFull), static_cast<typename detail::make_unsigned<T>::type>( 8));
+		x = detail::compute_bitfieldReverseStep<L, typename detail::make_unsigned<T>::type, Q, detail::is_aligned<Q>::value, sizeof(T) * 8>= 32>::call(x, static_cast<typename detail::make_unsigned<T>::type>(0x0000FFFF0000FFFFull), static_cast<typename detail::make_unsigned<T>::type>(16));
+		x = detail::compute_bitfieldReverseStep<L, typename detail::make_unsigned<T>::type, Q, detail::is_aligned<Q>::value, sizeof(T) * 8>= 64>::call(x, static_cast<typename detail::make_unsigned<T>::type>(0x00000000FFFFFFFFull), static_cast<typename detail::make_unsigned<T>::type>(32));
+		return vec<L, T, Q>(x);
 	}
 
 #		if GLM_COMPILER & GLM_COMPILER_VC
